@@ -470,7 +470,7 @@ func (r *runner) tx(db, shape string) bool {
 		case "gb":
 			x = pager.RTx{NewSize: nextBlk, Final: "DELETE", Outcome: "commit"}
 		case "fl":
-			x = pager.RTx{Mods: []uint32{s}, NewSize: s + 3, FreeLeaves: true, Final: "DELETE", Outcome: "commit"}
+			x = pager.RTx{Mods: []uint32{s}, NewSize: s + 4, FreeLeaves: true, FirstNew: 1, Final: "DELETE", Outcome: "commit"} // s+1 written, s+2 and s+3 never, s+4 the zero page that extends the file
 		case "sp":
 			return true // WAL only
 		case "s1":
